@@ -1,4 +1,3 @@
-(* WIP *)
 (* C35 — proofs about Conc/Limit.v: for every schedule of any number of concurrent attach attempts
    the counter equals the number of handlers between reservation and release, never exceeds the
    maximum, and so the number of simultaneously established connections never exceeds it;
@@ -222,23 +221,27 @@ Proof.
   rewrite M in B. rewrite S in C. eauto.
 Qed.
 
+Lemma Forall2_len {A B} (R : A -> B -> Prop) l l' : Forall2 R l l' -> length l = length l'.
+Proof. induction 1; cbn; auto. Qed.
+
+Lemma kick_length id specs stats : length (kick id specs stats) = length stats.
+Proof. revert specs; induction stats as [|x r IH]; intros [|sp specs]; cbn; auto. Qed.
+
 (* below the limit an attempt is admitted: the model does not refuse everybody *)
 Lemma limit_admits max specs sched t :
+  0 <= max ->
   let c := run exec sched (limit_threads max specs) in
   l_counter (shared c) < max ->
   nth_error (threads c) t = Some [Reserve; Decr] -> (t < length specs)%nat ->
-  stat t (step exec t c) = Some Established \/ (length (l_stats (shared c)) <= t)%nat.
+  stat t (step exec t c) = Some Established.
 Proof.
-  cbn zeta. intros Hlt Hn Ht.
-  destruct (run_consts sched (limit_threads max specs)) as [M S]. cbn in M, S.
+  intros Hmax. cbn zeta. intros Hlt Hn Ht.
+  destruct (run_inv max specs sched Hmax) as [M S Hok _ _].
+  remember (run exec sched (limit_threads max specs)) as c eqn:Hc. clear Hc.
   unfold stat, step, step_thread. rewrite Hn. unfold exec. rewrite S.
   destruct (nth_error specs t) as [sp|] eqn:E.
-  - unfold at_limit. rewrite M. destruct (max <=? _) eqn:L; [lia|]. cbn.
-    destruct (le_lt_dec (length (l_stats (shared (run exec sched (limit_threads max specs))))) t) as [Hl|Hl]; auto.
-    left. apply nth_error_set_nth_eq.
-    clear - Hl. revert Hl. generalize (l_specs (shared (run exec sched (limit_threads max specs)))).
-    generalize (l_stats (shared (run exec sched (limit_threads max specs)))). intros stats. revert t.
-    induction stats as [|x r IH]; intros t specs' H; cbn in *; try lia.
-    destruct specs'; cbn; auto. destruct t; cbn; try lia. apply Lt.lt_n_S. apply IH. lia.
+  - unfold at_limit. rewrite M. destruct (max <=? l_counter (shared c)) eqn:L; [lia|]. cbn.
+    apply nth_error_set_nth_eq. rewrite kick_length.
+    rewrite <- (Forall2_len _ _ _ Hok). apply nth_error_Some. congruence.
   - apply nth_error_None in E. lia.
 Qed.
